@@ -38,7 +38,7 @@ ASSUME = [
     "f64 only; custom sphere radius 3389500 m, custom ellipsoid a = 3396200 m, f = 0.00589",
 ]
 
-TIERS = {"quick": dict(G=15, GL=15, NMax=48, events=60000),
+TIERS = {"quick": dict(G=15, GL=15, NMax=48, events=100000),
          "thorough": dict(G=5, GL=15, NMax=144, events=500000)}
 
 
